@@ -47,7 +47,7 @@ class Library:
             return ['typedef struct %s { _Bool ok; %s val; int err; } %s;' % (ct, e, ct)]
         if ct.startswith('vec_') or ct.startswith('deq_'):
             return ['typedef struct %s { uint64_t vid; uint64_t n; } %s;' % (ct, ct)]
-        if ct.startswith('vecit_') or ct.startswith('deqit_'):
+        if ct.startswith('vecit_') or ct.startswith('deqit_') or ct.startswith('vecrit_'):
             return ['typedef struct %s { uint64_t vid; uint64_t i; uint64_t n; } %s;' % (ct, ct)]
         if ct.startswith('mapit_'):
             return ['typedef struct %s { hnd_t map; uint64_t pos; uint64_t n; _Bool valid; } %s;' % (ct, ct)]
@@ -79,6 +79,8 @@ class Library:
                 f.update(self.vec(n, ct, e))
             elif ct.startswith('vecit_') or ct.startswith('deqit_'):
                 f.update(self.vecit(n, ct, e))
+            elif ct.startswith('vecrit_'):
+                f.update(self.vecrit(n, ct, e))
             elif ct.startswith('uptr_'):
                 f.update(self.uptr(n, ct, e))
             elif ct.startswith('mapit_'):
@@ -192,6 +194,9 @@ class Library:
         f[n + '__empty'] = 'static inline _Bool %s__empty(%s v) { return v.n == 0; }' % (n, ct)
         f[n + '__begin'] = 'static inline %s %s__begin(%s v) { %s it; it.vid = v.vid; it.i = 0; it.n = v.n; return it; }' % (it, n, ct, it)
         f[n + '__end'] = 'static inline %s %s__end(%s v) { %s it; it.vid = v.vid; it.i = v.n; it.n = v.n; return it; }' % (it, n, ct, it)
+        rit = n.replace('vec_', 'vecrit_', 1)
+        f[n + '__rbegin'] = 'static inline %s %s__rbegin(%s v) { %s it; it.vid = v.vid; it.i = v.n; it.n = v.n; return it; }' % (rit, n, ct, rit)
+        f[n + '__rend'] = 'static inline %s %s__rend(%s v) { %s it; it.vid = v.vid; it.i = 0; it.n = v.n; return it; }' % (rit, n, ct, rit)
         f[n + '__op_index__uint64_t'] = ('static inline %s %s__op_index__uint64_t(%s v, uint64_t i) { __CPROVER_assert(i < v.n, '
                                          '"UB: vector operator[] index out of range"); return %s__elem(v.vid, i); }' % (e, n, ct, n))
         f[n + '__op_index__int'] = ('static inline %s %s__op_index__int(%s v, int i) { __CPROVER_assert(i >= 0 && (uint64_t)i < v.n, '
@@ -208,6 +213,26 @@ class Library:
                                'v->n = v->n - 1; }' % (n, ct))
         f[n + '__clear'] = 'static inline void %s__clear(%s *v) { v->n = 0; }' % (n, ct)
         f[n + '__reserve'] = 'static inline void %s__reserve(%s *v, uint64_t k) { }' % (n, ct)
+        f[n + '__cend'] = 'static inline %s %s__cend(%s v) { %s it; it.vid = v.vid; it.i = v.n; it.n = v.n; return it; }' % (it, n, ct, it)
+        f[n + '__cbegin'] = 'static inline %s %s__cbegin(%s v) { %s it; it.vid = v.vid; it.i = 0; it.n = v.n; return it; }' % (it, n, ct, it)
+        f[n + '__emplace_front'] = ('static inline void %s__emplace_front(%s *v, %s x) { __CPROVER_assume(v->n < VEC_MAX); v->n = v->n + 1; }' % (n, ct, e))
+        f[n + '__erase'] = ('static inline %s %s__erase(%s *v, %s first, %s last) { __CPROVER_assert(first.i <= last.i && last.i <= v->n, '
+                            '"UB: erase() with an invalid iterator range"); v->n = v->n - (last.i - first.i); '
+                            '%s r; r.vid = v->vid; r.i = first.i; r.n = v->n; return r; }' % (it, n, ct, it, it, it))
+        return f
+
+    def vecrit(self, n, ct, e):
+        # reverse iterator: position i denotes element i-1; rbegin: i = n, rend: i = 0
+        vn = n.replace('vecrit_', 'vec_', 1)
+        f = {}
+        f[n + '__op_eq'] = 'static inline _Bool %s__op_eq(%s a, %s b) { return a.i == b.i; }' % (n, ct, ct)
+        f[n + '__op_ne'] = 'static inline _Bool %s__op_ne(%s a, %s b) { return a.i != b.i; }' % (n, ct, ct)
+        f[n + '__op_inc'] = ('static inline %s %s__op_inc(%s *a) { __CPROVER_assert(a->i > 0, "UB: reverse iterator incremented past rend()"); '
+                             'a->i = a->i - 1; return *a; }' % (ct, n, ct))
+        f[n + '__op_deref'] = ('static inline %s %s__op_deref(%s a) { __CPROVER_assert(a.i > 0 && a.i <= a.n, "UB: reverse iterator '
+                               'dereferenced at rend()"); return %s__elem(a.vid, a.i - 1); }' % (e, n, ct, vn))
+        f[n + '__op_arrow'] = ('static inline %s %s__op_arrow(%s a) { __CPROVER_assert(a.i > 0 && a.i <= a.n, "UB: reverse iterator '
+                               'dereferenced at rend()"); return %s__elem(a.vid, a.i - 1); }' % (e, n, ct, vn))
         return f
 
     def vecit(self, n, ct, e):
@@ -217,6 +242,7 @@ class Library:
         f[n + '__op_ne'] = 'static inline _Bool %s__op_ne(%s a, %s b) { return a.i != b.i; }' % (n, ct, ct)
         f[n + '__op_inc'] = 'static inline %s %s__op_inc(%s *a) { a->i = a->i + 1; return *a; }' % (ct, n, ct)
         f[n + '__op_inc_post'] = 'static inline %s %s__op_inc_post(%s *a) { %s o = *a; a->i = a->i + 1; return o; }' % (ct, n, ct, ct)
+        f[n + '__op_sub'] = 'static inline int64_t %s__op_sub(%s a, %s b) { return (int64_t)a.i - (int64_t)b.i; }' % (n, ct, ct)
         f[n + '__op_deref'] = ('static inline %s %s__op_deref(%s a) { __CPROVER_assert(a.i < a.n, "UB: vector iterator '
                                'dereferenced at or past end()"); return %s__elem(a.vid, a.i); }' % (e, n, ct, vn))
         f[n + '__op_arrow'] = ('static inline %s %s__op_arrow(%s a) { __CPROVER_assert(a.i < a.n, "UB: vector iterator '
